@@ -1887,6 +1887,24 @@ def rule_startmisc(text):
                 break
             apps.append(_app(rname, text, mm.start(), mm.end(), new, why))
             text = text[:mm.start()] + new + text[mm.end():]
+    # WriteBuffer::new one-offs
+    for pat, rep, rname, why in (
+        (r"\(" + ws + r"num_cpus" + ws + r"::" + ws + r"get\(\)" + ws + r"/" + ws + r"2" + ws + r"\)" + ws + r"\." + ws + r"max\(" + ws + r"(\w+)" + ws + r"\)", r"max_usize(cpu_count() / 2, \1)", "R-arith", "definition of usize::max; num_cpus::get() is an arbitrary usize"),
+        (r"Arc::new\(" + ws + r"\(0\.\.(\w+)\)" + ws + r"\.map\(\|shard_id\|" + ws + r"CachePadded::new\(ShardedWriteBuffer::new\(shard_id\)\)\)" + ws + r"\.collect\(\)," + ws + r"\)", r"make_shards(\1)", "R-collect", "shim: one ShardedWriteBuffer per index 0..n, collected into the shared shard vector"),
+        (r"Mutex::new\(Vec::new\(\)\)", "HandleVec::new()", "R-handle", "the (empty) list of worker handles"),
+        (r"Mutex::new\(None\)", "HandleSlot::new()", "R-handle", "the (empty) coordinator handle slot"),
+        (r"Arc::new\(AtomicBool::new\(false\)\)", "ShutdownFlag::new()", "R-handle", "a cleared shutdown flag"),
+        (r"Arc::new\(RetirementQueue::new\(\)\)", "RetirementQueueH::new()", "R-handle", "an empty retirement queue"),
+        (r"shard_hasher:" + ws + r"RandomState::new\(\)," , "", "R-opq", "the shard hasher field is not part of this unit's surface"),
+        (r"crate::test_hooks::new_fault_scope\(\)", "new_fault_scope()", "R-opq", "test hook: an arbitrary id"),
+    ):
+        while True:
+            mm = re.search(pat, text)
+            if not mm:
+                break
+            new_ = mm.expand(rep)
+            apps.append(_app(rname, text, mm.start(), mm.end(), new_, why))
+            text = text[:mm.start()] + new_ + text[mm.end():]
     # (START..sharded_buffers.len()).step_by(STEP).any(|ID| BODY)  ->  the counting loop that defines it (short-circuit included);
     # START, STEP and BODY are carried over verbatim, so an edit to any of them is verified
     mm = re.search(r"\(" + ws + r"(" + ex + r")" + ws + r"\.\." + ws + r"(sharded_buffers" + ws + r"\." + ws + r"len\(\))" + ws + r"\)" + ws + r"\." + ws + r"step_by" + ws + r"\(" + ws
@@ -1907,7 +1925,16 @@ def rule_startmisc(text):
 
 
 def rule_sig_start(text):
-    return text, []
+    apps = []
+    for pat, rep, why in ((r"Arc\s*<\s*RwLock\s*<\s*DiskIO\s*>\s*>", "DiskLock", "lock handle"), (r"Arc\s*<\s*RwLock\s*<\s*FreeSpaceManager\s*>\s*>", "FreeSpaceLock", "lock handle"),
+                          (r"Arc\s*<\s*Statistics\s*>", "StatsH", "statistics handle")):
+        while True:
+            mm = re.search(pat, text)
+            if not mm:
+                break
+            apps.append(_app("R-handle", text, mm.start(), mm.end(), rep, why))
+            text = text[:mm.start()] + rep + text[mm.end():]
+    return text, apps
 
 
 def rule_sig_open(text):
